@@ -150,11 +150,17 @@ static std::array<real_t, N> _init_factorials() {
 
 // zero-order modified Bessel function of the first kind
 static real_t _besseli0(real_t x) {
-    constexpr int num_steps = 15;
-    static const auto factorials = _init_factorials<num_steps>();
-    real_t r = 0;
-    for (int k = 0; k < num_steps; ++k) {
-        r += std::pow(std::pow(x / 2, k) / factorials[k], 2);
+    //power series sum(((x/2)^k / k!)^2), summed until the terms stop contributing
+    //(a fixed number of 15 terms is not enough for x > 12)
+    const real_t q = (x / 2) * (x / 2);
+    real_t term = 1;
+    real_t r = 1;
+    for (int k = 1; k < 1000; ++k) {
+        term *= q / (real_t(k) * real_t(k));
+        r += term;
+        if (term < r * eps()) {
+            break;
+        }
     }
     return r;
 }
